@@ -99,12 +99,12 @@ class Project:
         raise KeyError((path, k))
 
 
-def gen_project(rng, nbase=None, heavy_noise=False):
+def gen_project(rng, nbase=None, heavy_noise=False, nodes=None):
     pr = Project()
     nbase = nbase or rng.randint(2, 5)
     bases = []
     for b in range(nbase):
-        sk = gen_skeleton(rng, "fn_%d" % b)
+        sk = gen_skeleton(rng, "fn_%d" % b, nodes=rng.choice(nodes) if nodes else None)
         bases.append((sk, rng.randrange(10 ** 6)))
     paths = ["a.py", "b.py", "pkg/c.py", "pkg/sub/d.py", "other/e.py"]
     nfiles = rng.randint(1, 4)
